@@ -41,7 +41,7 @@ type C = Cache<CK, CV, IdBuild>;
 
 #[derive(Clone, Copy, Debug, PartialEq)]
 pub struct Cfg { cap: Option<u64>, ttl: Option<u64>, tti: Option<u64>, weigher: Option<u8> }
-const WEIGHTS: [[u32; 4]; 5] = [[1, 2, 0, 5], [1, 1, 3, 9], [0, 0, 2, 1], [3_000_000_000, 3_000_000_000, 1, 2], [1, 120, 101, 100]];
+const WEIGHTS: [[u32; 4]; 5] = [[1, 2, 0, 5], [1, 1, 3, 9], [0, 0, 2, 1], [3_000_000_000, 4_294_967_295, 1, 2], [1, 120, 101, 100]];
 fn weight_of(cfg: &Cfg, v: u8) -> u32 { match cfg.weigher { None => 1, Some(t) => WEIGHTS[t as usize][(v % 4) as usize] } }
 
 #[derive(Clone, Copy, Debug, PartialEq)]
@@ -248,7 +248,12 @@ pub struct Finding { pub tags: &'static str, pub what: String }
 fn classify(op: Op, cfg: &Cfg, exp: &Snap, got: &Snap, exp_res: &str, got_res: &str, errs: &[String], live_k: i64, live_v: i64) -> Option<Finding> {
     let observer = matches!(op, Op::Contains(_) | Op::Iter);
     let expiry = cfg.ttl.is_some() || cfg.tti.is_some();
-    if !errs.is_empty() { return Some(Finding { tags: "C11,C08", what: format!("list/map structure: {}", errs.join("; ")) }); }
+    if !errs.is_empty() {
+        // a node left behind by an invalidation still carries its key and stamp: a later expiry scan removes BY KEY whatever is then
+        // in the map under it (a re-inserted entry), so for the invalidating operations this is also C07 / C05
+        let inval = matches!(op, Op::Invalidate(_) | Op::InvalidateAll | Op::InvalidateIf(_));
+        return Some(Finding { tags: if inval { "C11,C08,C07,C05" } else { "C11,C08" }, what: format!("list/map structure: {}", errs.join("; ")) });
+    }
     if exp_res != got_res {
         return Some(Finding { tags: if expiry { "C01,C05,C06,C03" } else { "C01,C03,C07" }, what: format!("result of {:?}: expected {} got {}", op, exp_res, got_res) });
     }
